@@ -72,7 +72,7 @@ Parities == {"topdown", "bottomup"}          \* png / npy ... vs fits (get_forma
 \* where display row r of a tile (0 = top) is stored in the tile's file
 FileRow(par, r) == IF par = "bottomup" THEN TS - 1 - r ELSE r
 \* a Python slice over a buffer axis of TS entries, as the sequence of indexes it addresses
-\* (only the forms tile_image builds: step +1 with 0 <= start <= stop <= TS; step -1 with stop = "None" or an int)
+\* (only the forms tile_image builds: step +1 with 0 <= start <= stop <= TS; step -1 with stop = None or an integer)
 Down(from, n) == [k \in 1..n |-> from - (k - 1)]       \* from, from-1, ... (n entries)
 None == <<>>                                 \* a slice bound is None or <<integer>>
 PySlice(start, stop, step) ==
